@@ -74,11 +74,38 @@ fn cut_lines_forward_only<A: BufRead, B: Write>(
         }
     }
 
-    // Output is finished. Did we output every bound?
-    if let Some(BoundOrFiller::Bound(b)) = opt.bounds.get(bounds_idx) {
-        if b.r != Side::Continue {
-            // not good, we still have bounds to print but the input is exhausted
-            bail!("Out of bounds: {}", b);
+    // The input is exhausted. Did we output every bound?
+    while let Some(bof) = opt.bounds.get(bounds_idx) {
+        let output: &[u8] = match bof {
+            BoundOrFiller::Filler(f) => f,
+            BoundOrFiller::Bound(b) => {
+                if add_newline_next {
+                    // some lines of this bound have been printed already
+                    add_newline_next = false;
+
+                    if b.r != Side::Continue {
+                        // not good, the input ended in the middle of the range
+                        // and we can't take back what we printed
+                        bail!("Out of bounds: {}", b);
+                    }
+
+                    &[]
+                } else if let Some(fallback) = &b.fallback_oob {
+                    // we never reached this bound
+                    fallback
+                } else if let Some(generic_fallback) = &opt.fallback_oob {
+                    generic_fallback
+                } else {
+                    bail!("Out of bounds: {}", b);
+                }
+            }
+        };
+
+        stdout.write_all(output)?;
+        bounds_idx += 1;
+
+        if opt.join && bounds_idx != opt.bounds.len() {
+            stdout.write_all(&[opt.eol as u8])?;
         }
     }
 
